@@ -15,7 +15,7 @@ import dlib  # noqa: E402
 
 logging.disable(logging.CRITICAL)
 
-from traits.api import (Undefined, Instance, UUID, Any, Dict, HasTraits, Int, List, Property, ReadOnly, Set, Str, TraitError,  # noqa: E402
+from traits.api import (Undefined, Instance, UUID, DelegatesTo, PrototypedFrom, Any, Dict, HasTraits, Int, List, Property, ReadOnly, Set, Str, TraitError,  # noqa: E402
                         cached_property, observe, push_exception_handler, pop_exception_handler)
 from traits.trait_list_object import TraitListObject  # noqa: E402
 from traits.trait_dict_object import TraitDictObject  # noqa: E402
@@ -29,6 +29,7 @@ DECL = []          # (object, trait name) of declared observers that fired
 class Child(HasTraits):
     v = Int()
     tags = List(Str)
+    rows = List()            # rows of plain (unvalidated) python lists; List carries copy="deep"
 
 
 GRAPH_LOG = []
@@ -72,6 +73,8 @@ def make_class(case):
     if case.get("graph"):
         ns["inst"] = Instance(Child)
         ns["kids"] = List(Instance(Child))
+        ns["drows"] = DelegatesTo("inst", prefix="rows")      # write-through delegate onto a deep-copy container trait
+        ns["pv"] = PrototypedFrom("inst", prefix="v")         # non-write-through delegate, never overridden
         ns["uid"] = UUID(can_init=True)                        # writable only until the object is initialised
         ns["byobj"] = Dict(Instance(Child), Int, copy="deep")  # keyed by mutable hashable objects
         ns["bystr"] = Dict(Str, Instance(Child))               # Dict carries no copy metadata of its own
@@ -252,6 +255,11 @@ def graph_probes(pool, o, c):
     # 907: a dict of objects without copy metadata on the Dict trait
     out.append(["inst", 907, meta("bystr"), c.bystr["a"] is o.bystr["a"],
                 {k: state(v) for k, v in c.bystr.items()} == {k: state(v) for k, v in o.bystr.items()}])
+    # 908: the container reached through the write-through delegate (List: copy="deep"): the nested plain lists of
+    # the copy's child are the copy's own, at every depth, and equal
+    out.append(["inst", 908, "deep",
+                c.inst.rows is o.inst.rows or any(a is b for a in c.inst.rows for b in o.inst.rows),
+                list(c.inst.rows) == list(o.inst.rows) == [[1, 2], [3], [4, 5]] and list(c.drows) == list(o.drows)])
     # 901: the child's own container is live on the copy's child
     wi, wo = [], []
     hs = {}
@@ -321,6 +329,8 @@ def run_case(case):
     if case.get("graph"):
         o.inst = Child(v=3, tags=["x"])
         o.kids = [Child(v=1, tags=["a"]), Child(v=2)]
+        o.drows = [[1, 2], [3]]                                # assignment through the delegate
+        o.inst.rows.append([4, 5])
         o.byobj = {o.kids[0]: 1, Child(v=9): 2}
         o.bystr = {"a": Child(v=4, tags=["t"])}
     op = case["op"]
@@ -371,6 +381,14 @@ def run_case(case):
             probes.append(["ro", d["k"], outcome(lambda: setattr(c, name, 5))])
     if case.get("graph"):
         probes += graph_probes(pool, o, c)
+        if case["op"][0] == "pickle":
+            # 909: a never-overridden non-write-through delegate has no state of its own: after unpickling it still
+            # follows the object it delegates to and notifies (what __getstate__ preserves are local overrides only)
+            ev = []
+            c.on_trait_change(lambda obj, name, old, new: ev.append((name, old, new)), "pv")
+            old = c.inst.v
+            c.inst.v = 55
+            probes.append(["inst", 909, "deep", False, c.pv == 55 and ev == [("pv", old, 55)] and o.pv == old])
     res["probes"] = probes
     return res
 
